@@ -1326,7 +1326,12 @@ func (a *align) Mask(refseq string, start, length int, maskreplace string, nogap
 	}
 
 	var refchar uint8 = '.'
-	for i := start; i < (start+length) && i < a.Length(); i++ {
+	// End of the window, truncated to the alignment (start+length may overflow)
+	end := a.Length()
+	if length < end-start {
+		end = start + length
+	}
+	for i := start; i < end; i++ {
 		if refseq != "" && noref {
 			refchar = refSequence.CharAt(i)
 		}
